@@ -19,11 +19,11 @@ UNITS_LOCAL = {"C16": [
     Unit("trees", _SRC, repo_src=_REPO, flags=ASAN, env=ASAN_ENV, engine="gridmc", opt="-O1",
          args={"quick": ["--part", "trees"], "thorough": ["--part", "trees"]},
          budget={"quick": 300, "thorough": 2400},
-         rule="(ii) every document of the tree space: root element + 0..2 leaf children, names {a,b_1}; root property sets: none, k, k l in all four quote-style combinations, empty value after a non-empty one and before one (each in both quote styles), two attributes with equal values (12 sets; children use 4 of them: none, k='v', k=\"v\" l='w x', k=\"v\" l=\"\"; thorough: root 16 sets adding both-empty, the other quote inside, markup characters inside, three attributes non-empty/empty/equal; children 5); body self-closing / empty open-close / text / children with text before or after them; header {none, <?xml version=\"1.0\"?>} (thorough: + <?xml?>, two-property header); comment patterns over the slots before/between/after items: none, body 'c' in every / even / odd slots, and in every slot the bodies 'a-' (<!--a--->), 'a--', '-' (only a dash), and one containing -- -> > < and quotes (thorough: + 'a-' in even / odd slots, bodies '--', '---', empty, '-x', more masks); layouts compact / pretty LF (thorough: CRLF+tabs); plus nesting chains of depth 1..8. Parsed tree compared node by node (name, property map, trimmed content, child order). distinct = distinct returned trees",
+         rule="(ii) every document of the tree space: root element + 0..2 leaf children, names {a,b_1}; root property sets: none, k, k l in all four quote-style combinations, empty value after a non-empty one and before one (each in both quote styles), two attributes with equal values (12 sets; children use 4 of them: none, k='v', k=\"v\" l='w x', k=\"v\" l=\"\"; thorough: root 16 sets adding both-empty, the other quote inside, markup characters inside, three attributes non-empty/empty/equal; children 5); body self-closing / empty open-close / text / children with text before or after them; header {none, <?xml version=\"1.0\"?>} (thorough: + <?xml?>, two-property header); comment patterns over the slots before/between/after items: none, body 'c' in every / even / odd slots, and in every slot the bodies 'a-' (<!--a--->), 'a--', '-' (only a dash), and one containing -- -> > < and quotes (thorough: + 'a-' in even / odd slots, bodies '--', '---', empty, '-x', more masks); layouts compact / pretty LF (thorough: CRLF+tabs); plus nesting chains of depth 1..8; plus the control-whitespace text family: layout x {no comments, c in every slot} x root name x {text only, text then child, child then text, text inside the child} x 16 texts made of or framed by \\t \\n \\r \\v \\f and space (for the 9 texts with \\v or \\f at an end the reader's leading/trailing trimming rules disagree, so only totality and the runtime_error contract are judged; for the others the content must equal the text trimmed of space \\t \\n \\r). Parsed tree compared node by node (name, property map, trimmed content, child order). distinct = distinct returned trees",
          assumptions=_ASSUME),
     Unit("mutations", _SRC, repo_src=_REPO, flags=ASAN, env=ASAN_ENV, engine="gridmc", opt="-O1",
          args={"quick": ["--part", "mutations"], "thorough": ["--part", "mutations"]},
          budget={"quick": 300, "thorough": 2400},
-         rule="(iii) every document of the (ii) space restricted to its mutation-base option lists (root property sets: the 7 non-empty ones + k=\"v\" l=\"\"; children: 4 sets; comment patterns: none, c in every/even/odd slots, a- in every slot; 2 headers, 2 layouts) of at most 36 bytes (thorough 60): every truncation (prefix of every length) and every single byte replaced by every other symbol of the 12-symbol alphabet; for the documents of at most 24 (thorough 36) bytes also every truncation with its last byte replaced by every other symbol; verdict as in (i). distinct = distinct returned trees, error messages and deaths",
+         rule="(iii) every document of the (ii) space restricted to its mutation-base option lists (root property sets: the 7 non-empty ones + k=\"v\" l=\"\"; children: 4 sets; comment patterns: none, c in every/even/odd slots, a- in every slot; 2 headers, 2 layouts) of at most 34 bytes (thorough 60): every truncation (prefix of every length) and every single byte replaced by every other byte of the 12-symbol alphabet extended by the control whitespace bytes \\t \\n \\r \\v \\f (17 bytes); for the documents of at most 24 (thorough 36) bytes also every truncation with its last byte replaced by every other symbol; verdict as in (i). distinct = distinct returned trees, error messages and deaths",
          assumptions=_ASSUME),
 ]}
